@@ -32,6 +32,17 @@ CHECKS = {
              "3.12.1 available; end-to-end list/run/-j agreement is exercised by the world runs of C03",
         technique="Lean 4 theorems on hand-written model + generated facts + differential correspondence",
         design="§5 C11"),
+    "C20": dict(
+        text="PARTIAL proof. Lean step-machine model of the iterative Tarjan code; proved for all graphs, iteration "
+             "orders and step counts: every node is in exactly one of unvisited/stack/one yielded component (components "
+             "duplicate-free, pairwise disjoint, inside the node set, nothing lost) and a yielded component is the "
+             "stack segment above its root. The full statement (components = mutual reachability classes, default mode "
+             "= non-trivial ones) is kept as an unproved def and checked on every real output by an independent oracle "
+             "(a test). The model is tied to the code by identical emission sequences (exhaustive <= 3/4 nodes + random).",
+        note="mutual-reachability clause and emptiness of the stack at exhaustion are not proved (Tarjan low-link "
+             "invariants); set iteration orders are read from the real objects",
+        technique="Lean 4 invariant proof on step-machine model (partial) + exact differential correspondence + oracle",
+        design="§5 C20"),
 }
 
 NOT_APPLICABLE = {}
